@@ -44,7 +44,7 @@ def build(tier, seed):
     # ---- writer half: every configuration axis, decoded independently ----
     shp = wc.standard_shapes(tier, "rt")
     if quick:
-        shp = [x for i, x in enumerate(shp) if i % 3 == (seed + 1) % 3 or "_c" in x[0] or "pfx" in x[0]]
+        shp = [x for i, x in enumerate(shp) if i % 3 == (seed + 1) % 3 or "_c" in x[0] or "pfx" in x[0] or "_len" in x[0]]
     for name, kw in shp:
         qs.append(wc.wq(name, witness=False, **kw))
     # ---- reader half: files laid out by the independent encoder ----
